@@ -377,7 +377,7 @@ fn glyphs_from_u8_data(font_height: usize, mut data: &[u8]) -> HashMap<char, Gly
         return glyphs;
     }
     let mut ch = 0;
-    while !data.is_empty() {
+    while data.len() >= font_height {
         let glyph = Glyph {
             data: data[..font_height].into(),
         };
